@@ -119,8 +119,11 @@ def rd_id(t, cv, rd, rel):
 ZONE_CLASSES = [dns.zone.Zone, dns.versioned.Zone, dns.btreezone.Zone]
 
 
-def build_zone(zk, rel, z0):
+def build_zone(zk, rel, z0, maxver=-1):
     z = ZONE_CLASSES[zk](ORIGIN, relativize=bool(rel))
+    if zk != 0 and maxver != -1:
+        # retained history: 0 = unlimited, k = keep up to k versions (set before anything is committed)
+        z.set_max_versions(None if maxver == 0 else maxver)
     if z0:
         with z.writer() as txn:
             for n, t, cv, ttl, ds in z0:
@@ -305,6 +308,49 @@ def run_feed(case):
     return [res, dump_zone(z, rel)]
 
 
+def drive_tcp(z, q, ser, wires):
+    """dns.query._inbound_xfr over a fake TCP socket -> (code, messages yielded)"""
+    n = 0
+    try:
+        for _ in dns.query._inbound_xfr(z, FakeTCP(wires), q, ser, None, None):
+            n += 1
+    except Exception as e:  # noqa
+        return exc_code(e), n
+    return Err(0), n
+
+
+def run_refresh(case):
+    """a secondary that refreshes its zone again and again: make_query on the zone as it is now,
+    extract_serial_from_query, the server's answer for that serial, _inbound_xfr"""
+    _, zk, rel, maxver, pin, z0, refreshes = case
+    z = build_zone(zk, rel, z0, maxver)
+    pinned = z.reader() if (pin and zk != 0) else None   # a reader held open across the commits
+    out = []
+    try:
+        for _target, table in refreshes:
+            try:
+                q, s = dns.xfr.make_query(z)
+                s2 = dns.xfr.extract_serial_from_query(q)
+            except Exception as e:  # noqa
+                out.append(exc_code(e))
+                break
+            msgs = None
+            for k, ms in table:
+                if k == s2:
+                    msgs = ms
+                    break
+            if msgs is None:
+                msgs = next((ms for k, ms in table if k is None), [])
+            c, _n = drive_tcp(z, q, s2, [wire_of(w) for w in msgs])
+            if c.code >= 800:
+                return c
+            out.append([int(q.question[0].rdtype), s, s2, c.code, dump_zone(z, rel)])
+    finally:
+        if pinned is not None:
+            pinned.rollback()
+    return out
+
+
 def run_make_query(case):
     _, zs, ser = case
     z = dns.versioned.Zone(ORIGIN)
@@ -350,6 +396,8 @@ def impl(case):
             return int(dns.serial.Serial(case[1]) < case[2])
         if op == 5:
             return run_group(case)
+        if op == 6:
+            return run_refresh(case)
     except Exception as e:  # noqa  (harness-level failure: build_zone, rendering ...)
         return Err(950, "harness:" + type(e).__name__ + ":" + str(e))
     raise ValueError("bad op")
@@ -1020,6 +1068,40 @@ def feed_cases(ctx, rng, n):
         yield "feed", [2, zk, rel, rdt, ser, udp, zdump(chain[0]), msgs, [ANY, None]]
 
 
+def refresh_cases(ctx, rng, n):
+    """end to end: a server with versions V[0..m]; the client (plain / versioned with retained history /
+    btree, optionally with a reader pinned across the commits) starts at V[0] (or empty, or unrelated)
+    and refreshes repeatedly; the server answers according to the serial found in the client's query"""
+    for _ in range(n):
+        zk = rng.randrange(3)
+        rel = rng.randrange(2)
+        maxver = rng.choice([-1, 1, 3, 3, 0, 0]) if zk != 0 else -1
+        pin = int(rng.random() < 0.35) if zk != 0 else 0
+        m = rng.choice([2, 3, 4])
+        W = gen_chain(rng, m + 1, size=rng.choice([1, 2, 4]))
+        V = W[1:]
+        r = rng.random()
+        # the client starts at the server's oldest version, empty, or with an older zone the server has no history for
+        z0 = V[0] if r < 0.75 else ({} if r < 0.85 else gen_zone(rng, soa_id(W[0]) & 0xFFFFFFFF, size=2))
+        targets = sorted(set(rng.choice(range(1, m + 1)) for _ in range(rng.randint(1, 3))) | {m})
+        if rng.random() < 0.3:
+            targets.insert(rng.randrange(len(targets) + 1), targets[rng.randrange(len(targets))])
+            targets.sort()
+        refreshes = []
+        for j in targets:
+            table = []
+            known = [k for k in range(j) if rng.random() < 0.9]     # versions the server still has history for
+            for k in known:
+                chain = V[k:j + 1] if rng.random() < 0.8 else [V[k], V[j]]
+                recs = ixfr_stream(rng, chain, shuffle=rng.random() < 0.5)
+                table.append([soa_id(V[k]) & 0xFFFFFFFF, msgs_of(split(recs, rand_cuts(rng, len(recs))), IXFR, rng.choice([0, 1]))])
+            table.append([soa_id(V[j]) & 0xFFFFFFFF, msgs_of([[soa_rec(V[j])]], IXFR)])
+            recs = axfr_stream(rng, V[j], shuffle=rng.random() < 0.5)
+            table.append([None, msgs_of(split(recs, rand_cuts(rng, len(recs))), IXFR, 0)])
+            refreshes.append([zdump(V[j]), table])
+        yield "refresh", [6, zk, rel, maxver, pin, zdump(z0), refreshes]
+
+
 def misc_cases(ctx, rng):
     edge = [0, 1, 2, 2 ** 31 - 1, 2 ** 31, 2 ** 31 + 1, 2 ** 32 - 2, 2 ** 32 - 1]
     for a in edge:
@@ -1055,6 +1137,7 @@ def cases(ctx):
     yield from fault_cases(ctx, rng, ctx.n(500, 4500))
     yield from malformed_cases(ctx, rng, ctx.n(400, 4500))
     yield from feed_cases(ctx, rng, ctx.n(200, 2000))
+    yield from refresh_cases(ctx, rng, ctx.n(250, 2500))
 
 
 # ------------------------------------------------------------------ oracle
@@ -1068,7 +1151,7 @@ def oracle(ctx, kind, case, out):
 
     op = case[0]
     if isinstance(out, Err):
-        if op in (1, 2) or out.code >= 900:
+        if op in (1, 2, 6) or out.code >= 900:
             fail("unexpected exception " + out.text)
         return F
     if op == 4:
@@ -1086,6 +1169,30 @@ def oracle(ctx, kind, case, out):
         z0 = case[6]
         if 1000 not in res and dump != z0:
             fail("the zone changed although no process_message call returned True", sig="changed-without-done")
+        return F
+    if op == 6:
+        prev = case[5]
+        for i, ((target, _table), res) in enumerate(zip(case[6], out)):
+            if isinstance(res, Err):
+                fail(f"refresh {i}: make_query / extract_serial_from_query raised {res.text}", sig="refresh-query")
+                break
+            qt, s, s2, code, dump = res
+            cur = next((e[4][0] & 0xFFFFFFFF for e in prev if e[:3] == [0, SOA, 0] and e[4]), None)
+            if s != cur:
+                fail(f"refresh {i}: make_query used serial {s} but the zone's current SOA serial is {cur}", sig="refresh-stale-serial")
+            if s2 != s:
+                fail(f"refresh {i}: extract_serial_from_query gave {s2}, make_query returned {s}", sig="refresh-extract")
+            if qt != (IXFR if cur is not None else AXFR):
+                fail(f"refresh {i}: query type {qt}", sig="refresh-qtype")
+            if code != 0:
+                fail(f"refresh {i}: a valid response for the serial in the query was rejected ({code})", sig="refresh-rejected")
+            elif dump != target:
+                fail(f"refresh {i}: the zone is not the server's newest version after the refresh", sig="refresh-wrong-zone")
+            if F:
+                break
+            prev = target
+        if len(out) != len(case[6]) and not F:
+            fail("refresh sequence stopped early", sig="refresh-short")
         return F
     if op != 1:
         return F
